@@ -1,4 +1,6 @@
 import Heph.Proofs.ClosedSound
+import Heph.Proofs.ClosedSites
+import Heph.Proofs.ClosedFuel
 import Heph.Proofs.ClosedPool
 import Heph.Proofs.ClosedAssignable
 import Heph.Generated.Keywords
@@ -18,11 +20,15 @@ What is proved, for ALL inputs (no assumption that a program came from the gener
   distinct, and identifiers built from them in whatever mode (`None`/`lower`/`capitalize`) stay pairwise distinct on a
   lower-case pool.
 * `identifier_not_reserved` (full strength, for every pool drawn from the word file, every language, every mode):
-  **false of the code as it is** (`identifier_not_reserved_counterexample`: Groovy, `math` → `Math`, on the
-  REGENERATED keyword tables; also `set`, `date`, `exception`: `reserved_collisions_current`), true of the repaired
-  removal for every keyword table (`identifier_not_reserved_fixed`, no table needed), and decided for either variant
-  by one `decide` on the regenerated tables (`identifier_not_reserved_of_table`).
-  `identifier_not_reserved_status` is stated about `Pool.codeIsFixed`, THE switch (`Model/Pool.lean`).
+  **true of the code since `fix:` 656374e** (`identifier_not_reserved_current`; the repaired case-insensitive removal is
+  correct for every keyword table: `identifier_not_reserved_fixed`, no table needed) and **false of the removal as it
+  was** (`identifier_not_reserved_counterexample`: Groovy, `math` → `Math`, on the REGENERATED keyword tables; also
+  `set`, `date`, `exception`: `reserved_collisions_current`); either variant is decided by one `decide` on the
+  regenerated tables (`identifier_not_reserved_of_table`).  `Pool.codeIsFixed` (`Model/Pool.lean`) is THE switch naming
+  the variant the tree implements; `check_C05` detects the tree's variant on every run and objects if Lean is ahead.
+* about the specification itself: `closed_covers_every_use` (the site walk skips no name use, through lambdas, nested
+  functions, conditional branches, default values …) and `hier_fuel_adequate` (member lookup never stops for lack of
+  fuel on a class table without inheritance cycles).
 
 What is NOT proved (hence "partial"): that the generator only produces closed programs — `Closed` is *checked* by the
 verified walker on the explored programs; only the pool and the assignment filter are modelled and universally proved.
@@ -52,6 +58,69 @@ theorem closedCheck_error (p : Program) (kw : List String) (path why : String) :
 theorem member_lookup_in_hierarchy (tops : List Node) (t : Ty) (nm : String) (cm : Node × TMap) :
     tyClassName t = some nm → cm ∈ hierOfType tops (some t) → SuperOf tops nm cm.1 :=
   hierOfType_superOf tops t nm cm
+
+/-- **fuel adequacy** of the superclass walk: if the class table has a ranking (every superclass reference names a
+    class of smaller rank - no inheritance cycle), every fuel above the rank of a class computes the same hierarchy:
+    member lookup never stops for lack of fuel -/
+theorem hier_fuel_adequate (tops : List Node) (rank : String → Nat) (hr : Ranked tops rank) (name : String)
+    (targs : List Ty) (fuel : Nat) (h : rank name < fuel) :
+    hier tops fuel name targs = hier tops (rank name + 1) name targs :=
+  Heph.Scope.hier_fuel_adequate tops rank hr name targs fuel h
+
+/-- in particular for the fuel `hierOfType` picks (`tops.length + 1`), when ranks stay within the number of
+    declarations (e.g. rank = position of the declaration, superclasses declared first): more fuel changes nothing -/
+theorem hierOfType_fuel_adequate (tops : List Node) (rank : String → Nat) (hr : Ranked tops rank)
+    (hb : ∀ name, rank name ≤ tops.length) (t : Ty) (more : Nat) :
+    hierOfType tops (some t) =
+      match tyClassName t with
+      | none => []
+      | some nm => hier tops (tops.length + 1 + more) nm (tyArgs t) :=
+  Heph.Scope.hierOfType_fuel_adequate tops rank hr hb t more
+
+def tops2 : List Node :=
+  [.classDecl "A" 0 false [] [] [] [], .classDecl "B" 0 false [] [.superInst (.simple "A" []) none] [] []]
+def rank2 (n : String) : Nat := if n = "B" then 1 else 0
+
+/-- the hypotheses are satisfiable: `B extends A` -/
+example : Ranked tops2 rank2 ∧ ∀ name, rank2 name ≤ tops2.length := by
+  refine ⟨?_, fun name => by unfold rank2; split <;> simp [tops2]⟩
+  intro name c hc s hs t ht m nm hn
+  simp only [tops2, findClass, List.find?_cons, isClassDecl, declName, Bool.true_and] at hc
+  split at hc
+  · cases hc; simp [classSupers] at hs
+  · split at hc
+    · next h1 h2 =>
+      cases hc
+      simp only [classSupers, List.mem_singleton] at hs
+      subst hs
+      simp only [superType, Option.some.injEq] at ht
+      subst ht
+      simp only [substTy, tyClassName, Option.some.injEq] at hn
+      subst hn
+      have : "B" = name := by simpa using h2
+      subst this
+      decide
+    · simp at hc
+
+/-- **the quantifier of C05 is honoured**: `Closed` skips no name use.  Every variable reference, call, function
+    reference, field access, object creation, assignment, superclass instantiation and declared identifier occurring
+    ANYWHERE in a declaration of the program (`Occurs`: through lambdas, nested functions, both branches of
+    conditionals, default values, super-constructor arguments …) has a site of `programSites`, and in a closed
+    program the use resolves in the environment of that site -/
+theorem closed_covers_every_use (p : Program) (kw : List String) (h : Closed p kw) {d m : Node} (hd : d ∈ p.decls)
+    (hm : Occurs m d) {u : Use} (hu : nodeUse m = some u) :
+    ∃ s ∈ programSites p, s.use = u ∧ Resolves kw s.env u := by
+  obtain ⟨s, hs, hsu⟩ := programSites_cover p hd hm hu
+  exact ⟨s, hs, hsu, hsu ▸ h s hs⟩
+
+/-- the variable `v` inside the lambda inside the block of `f` occurs in `f` -/
+example : Occurs (.variable "v")
+    (.funcDecl "f" [] none none (some (.block [.varDecl "l" (.lambda "l" [] none (.variable "v") none) true none none] true))
+      false false [] 1) :=
+  .step (c := .block [.varDecl "l" (.lambda "l" [] none (.variable "v") none) true none none] true) (by simp [children])
+    (.step (c := .varDecl "l" (.lambda "l" [] none (.variable "v") none) true none none) (by simp [children])
+      (.step (c := .lambda "l" [] none (.variable "v") none) (by simp [children])
+        (.step (c := .variable "v") (by simp [children]) (.refl _))))
 
 /-- a closed two-declaration program, and the same program with the uses the property forbids -/
 def progOk : Program :=
@@ -200,5 +269,10 @@ theorem identifier_not_reserved_iff (fixed : Bool) : identifier_not_reserved fix
     checks that it does); C05's identifier clause holds of the code iff that switch is `true` -/
 theorem identifier_not_reserved_status : identifier_not_reserved codeIsFixed ↔ codeIsFixed = true :=
   identifier_not_reserved_iff codeIsFixed
+
+/-- **the identifier clause of C05 holds of the code under test** (`codeIsFixed = true` since `fix:` 656374e; the
+    harness checks on every run that the tree implements this variant) -/
+theorem identifier_not_reserved_current : identifier_not_reserved codeIsFixed :=
+  identifier_not_reserved_status.mpr rfl
 
 end Heph.Props.C05
